@@ -153,6 +153,8 @@ def check_case(case):
     labels.add('constructor-inherited-from-a-configurable-base')
   if shape.get('earlier_version') and shape['kind'] == 'function':
     labels.add('function-redefined-in-interactive-mode')
+  if G.posonly_params(shape):
+    labels.add('positional-only-leading-parameters')
   if shape.get('later_sibling') and shape.get('method_api') == 'register':
     labels.add('method-with-a-same-named-method-in-a-later-class')
   sel_full = built.selector
@@ -162,7 +164,8 @@ def check_case(case):
     # bindings of the *other* registration of the same function object never reach this one
     first_sel = sel_full.rsplit('.', 1)[0] + '.' + shape['also_as']
     for p in G.named_params(shape) + (G.EXTRA[:1] if shape['varkw'] else []):
-      gin.bind_parameter(('', first_sel, p), 'FIRST:' + p)
+      if p not in G.posonly_params(shape):
+        gin.bind_parameter(('', first_sel, p), 'FIRST:' + p)
     labels.add('same-object-registered-under-two-names')
   # ---- make the bindings --------------------------------------------------------------
   model = {}
@@ -318,6 +321,7 @@ def check_case(case):
           labels.add('call-through-scoped-selector')
         else:
           scoped_fn = None
+        rec = None
         try:
           rec = scoped_fn(*args, **kwargs) if scoped_fn else _probe_call(built, args, kwargs)
           raised = None
@@ -425,6 +429,11 @@ def strategy(draw):
   elif shape['kind'] == 'function' and (shape['pos'] or shape['dflt']) and draw(
       st.integers(0, 3)) == 0:
     shape['earlier_version'] = True     # redefined in interactive mode with another parameter order
+  if (shape['kind'] == 'function' and shape['pos'] and not shape.get('earlier_version') and
+      draw(st.integers(0, 3)) == 0):
+    # def f(a, /, b, c='D:c', ...): the leading parameters are positional-only -- never bound, and
+    # the names of the parameters that the caller's positional arguments fill still count from them
+    shape['posonly_pos'] = draw(st.integers(1, len(shape['pos'])))
   entries = draw(st.lists(_entry, min_size=0, max_size=4))
   capture = None
   if draw(st.integers(0, 5)) == 0:
@@ -433,7 +442,8 @@ def strategy(draw):
   for e in entries + ([(capture[0] + '/' + capture[1]).split('/')] if capture else []):
     stack.enter(e)
   active = stack.current
-  pool = G.named_params(shape) + (G.EXTRA if shape['varkw'] else [])
+  pool = ([p for p in G.named_params(shape) if p not in G.posonly_params(shape)] +
+          (G.EXTRA if shape['varkw'] else []))
   prefixes = ['/'.join(active[:i]) for i in range(len(active) + 1)]
   others = ['/'.join(active + ['s']), '/'.join(active[:-1] + ['zz']) if active else 'zz',
             '/'.join(active[1:]) if len(active) >= 2 else 'u/t',
@@ -457,7 +467,8 @@ def strategy(draw):
   for j in range(draw(st.integers(1, 4))):
     max_pos = len(positional) + (2 if shape['varargs'] else (1 if draw(st.integers(0, 9)) == 0
                                                              else 0))
-    n_pos = draw(st.integers(0, max_pos))
+    n_pos = draw(st.integers(min(len(G.posonly_params(shape)), max_pos)
+                             if draw(st.integers(0, 7)) else 0, max_pos))
     args = ['C%d.%d' % (j, i) for i in range(n_pos)]
     rest = [p for p in G.named_params(shape) if p not in positional[:n_pos]]
     kw_names = draw(st.lists(st.sampled_from(rest), unique=True, max_size=len(rest))
